@@ -411,6 +411,12 @@ class World:
                 self.out.events.append("defs.py := %s   (while the processes run)" % (self.edit_plan[1],))
                 self.out.stats["probe:edit-between-process-starts"] += 1
             order = ([current] + [p for p in runnable if p is not current]) if current in runnable else runnable
+            # a process waiting for an advisory file lock retries whenever it runs; prefer somebody who can progress
+            waiting = [p for p in order if getattr(p, "blocked_on_lock", None)]
+            if waiting and len(waiting) < len(order):
+                order = [p for p in order if p not in waiting]
+            for p in waiting:
+                p.blocked_on_lock = None
             nxt = order[ch.draw("next-proc", len(order), stream="sched")]
             if current in runnable and nxt is not current:
                 st["fault:preempt"] += 1
